@@ -106,25 +106,32 @@ class Ctx:
             shutil.copy(os.path.join(REPO, "go.sum"), os.path.join(self.work, "harness.sum"))
         return mf
 
-    def build_harness(self, name="harness", tags=("verif",), race=False, extra_flags=(), extra_overlay_dir=None):
+    def build_harness(self, name="harness", tags=("verif",), race=False, extra_flags=(), extra_overlay_dir=None, std_overlay_dir=None):
         hdir = os.path.join(VERIF, "harness")
         extra_flags = tuple(extra_flags) + ("-modfile=" + self.modfile(),)
         out = os.path.join(self.work, name)
         overlay = make_overlay(self.work)
-        if extra_overlay_dir:
-            # files under extra_overlay_dir/<path> REPLACE /repo/<path> in this build only
+        if extra_overlay_dir or std_overlay_dir:
+            # files under extra_overlay_dir/<path> REPLACE /repo/<path> in this build only;
+            # files under std_overlay_dir/<path> REPLACE $GOROOT/src/<path> (environment models, e.g. an adversarial sync.Pool)
             ov = json.load(open(overlay))
-            for root, _, files in os.walk(extra_overlay_dir):
-                for fn in files:
-                    if fn.endswith(".go"):
-                        rel = os.path.relpath(os.path.join(root, fn), extra_overlay_dir)
-                        ov["Replace"][os.path.join(REPO, rel)] = os.path.join(root, fn)
+            goroot = sh(["go", "env", "GOROOT"], timeout=60).stdout.strip()
+            for odir, base in ((extra_overlay_dir, REPO), (std_overlay_dir, os.path.join(goroot, "src"))):
+                if not odir:
+                    continue
+                for root, _, files in os.walk(odir):
+                    for fn in files:
+                        if fn.endswith(".go"):
+                            rel = os.path.relpath(os.path.join(root, fn), odir)
+                            if not os.path.exists(os.path.join(base, rel)):
+                                raise Infra("overlay target %s does not exist" % os.path.join(base, rel))
+                            ov["Replace"][os.path.join(base, rel)] = os.path.join(root, fn)
             overlay = os.path.join(self.work, name + "_overlay.json")
             json.dump(ov, open(overlay, "w"))
         cmd = ["go", "build", "-tags", ",".join(tags), "-overlay", overlay, "-o", out]
         if race:
             cmd.append("-race")
-        if COVER_DIR and os.environ.get("VERIF_HOOKS_MATERIALIZED") and not extra_overlay_dir:
+        if COVER_DIR and os.environ.get("VERIF_HOOKS_MATERIALIZED") and not extra_overlay_dir and not std_overlay_dir:
             # coverage mode (tools/coverage_run.sh): REPO is a scratch copy with the hooks materialised; -coverpkg only
             # instruments packages of the main module, so the driver is built as a command INSIDE that copy
             os.makedirs(COVER_DIR, exist_ok=True)
